@@ -18,6 +18,9 @@ def isIntSpelling (s : String) : Bool :=
 def parseTok (s : String) : Option Tok :=
   if s == "~" then some .ws
   else if s == "/**/" then some .ws
+  -- wave 5, white space in other spellings: line continuation (`Token::PhysicalEndline`), tab, line comment, a block
+  -- comment that holds a line end: each is ONE white-space token that is not a line end
+  else if s == "~c" || s == "~t" || s == "//c" || s == "/*n*/" then some .ws
   else if s == "(" then some .lparen
   else if s == ")" then some .rparen
   else if s == "," then some .comma
@@ -28,6 +31,10 @@ def parseTok (s : String) : Option Tok :=
   -- an integer literal in another spelling (hex, octal, leading zeros, suffixes): kept by spelling
   else if isIntSpelling s then some (.int s)
   else none
+
+/-- the value of an API define may hold a line end (`~n`); a line of a file can not -/
+def parseApiTok (s : String) : Option Tok :=
+  if s == "~n" then some .endline else parseTok s
 
 def parseToks (s : String) : Option (List Tok) :=
   sequenceOpt (((s.splitOn " ").filter (· ≠ "")).map parseTok)
@@ -40,10 +47,22 @@ def parseLine (s : String) : Option Line :=
   match k with
   | "D" => (parseToks rest).map (fun t => .define (located t))
   | "U" => (parseToks rest).map (fun t => .undef (located t))
-  | "I" => some (.incl rest.trimAscii.toString)
+  | "I" =>
+    -- `I name` = `#include "name"`, `I <name>` = `#include <name>` (`Token::HeaderName`): the same file name
+    let n := rest.trimAscii.toString
+    some (.incl (if n.startsWith "<" && n.endsWith ">" then ((n.drop 1).dropEnd 1).toString else n))
   | "O" => some .pragmaOnce
   | "W" => some .pragmaWarning
+  | "N" => some .null
   | "T" => (parseToks rest).map (fun t => .text (located t))
+  -- a directive line that is rejected: `X P` = `#pragma foo`, `X P0` = `#pragma`, `X C` = `#foo`, `X I0` = `#include`,
+  -- `X I1` = `#include foo`, `X I2` = `#include "f1" x`
+  | "X" =>
+    match rest.trimAscii.toString with
+    | "P" | "P0" => some (.rejected .unknownPragma)
+    | "C" | "C1" => some (.rejected .unknownCommand)
+    | "I0" | "I1" | "I2" => some (.rejected .invalidInclude)
+    | _ => none
   | _ => none
 
 /-- a file entry `name|lines` or `name>real|lines`: (include name, (real name the handler reports, lines)) -/
@@ -51,7 +70,9 @@ def parseFile (s : String) : Option (String × String × List Line) :=
   match s.splitOn "|" with
   | [] => none
   | head :: ls =>
-    let (name, real) := match head.trimAscii.toString.splitOn ">" with
+    -- `!` + letters behind the name: how the file's text is spelled (CR LF, no final line end, `# define`): same tokens
+    let head := (head.trimAscii.toString.splitOn "!").headD ""
+    let (name, real) := match head.splitOn ">" with
       | [n] => (n, n)
       | n :: r :: _ => (n, r)
       | [] => ("", "")
@@ -64,14 +85,14 @@ def parseApi (s : String) : Option (List ApiDefine) :=
     let ws := (e.trimAscii.toString.splitOn " ").filter (· ≠ "")
     match ws.span (· ≠ ":=") with
     | (n, _ :: v) =>
-      match sequenceOpt (n.map parseTok), sequenceOpt (v.map parseTok) with
+      match sequenceOpt (n.map parseTok), sequenceOpt (v.map parseApiTok) with
       | some n, some v => some ⟨n, v⟩
       | _, _ => none
     | (_, []) =>
       match ws with
       | [] => none
       | n :: v =>
-        match parseTok n, sequenceOpt (v.map parseTok) with
+        match parseTok n, sequenceOpt (v.map parseApiTok) with
         | some n, some v => some ⟨[n], v⟩
         | _, _ => none)
 
@@ -114,6 +135,9 @@ def showErr : Err → String
   | .concatMissingRightToken => "err ConcatMissingRightToken"
   | .concatFailed => "err ConcatFailed"
   | .failedToFindFile n => "err FailedToFindFile(" ++ n ++ ")"
+  | .unknownPragma => "err UnknownPragma"
+  | .unknownCommand => "err UnknownCommand"
+  | .invalidInclude => "err InvalidInclude"
   | .panic site => "panic " ++ site
   | .hang => "model-hang"
   | .guard w => "model-guard " ++ w
@@ -199,6 +223,14 @@ def tstepLine (inc : String → TState → Except Err TState) (cur : String) :
       match inc name ts with
       | .error e => .error e
       | .ok ts => .ok (ts, [])
+  | (ts, active), .rejected e =>
+    match tflush ts active with
+    | .error e' => .error e'
+    | .ok _ => .error e
+  | (ts, active), .null =>
+    match tflush ts active with
+    | .error e => .error e
+    | .ok ts => .ok (ts, [eol])
 
 def tfoldLines (inc : String → TState → Except Err TState) (cur : String) :
     TState × List PTok → List Line → Except Err (TState × List PTok)
